@@ -251,6 +251,18 @@ def lean_obligations(ctx, modules, theorems):
         if not broken:
             broken.append({'theorem': '<build>', 'why': 'lake build failed outside a property theorem: ' +
                            json.dumps(build_errors[:5])})
+    # thorough tier: independent re-check of the compiled .olean files of the property's whole module closure
+    ctx.leanchecker = None
+    if rc == 0 and ctx.tier == 'thorough':
+        mods = sorted(str(p.relative_to(LEAN))[:-5].replace('/', '.') for p in module_closure(modules)
+                      if str(p.relative_to(LEAN)).startswith('AbacusVerif/'))
+        try:
+            rc3, out3 = run_cmd(['lake', 'env', 'leanchecker'] + mods, cwd=LEAN, timeout=1800)
+            ctx.leanchecker = {'modules': len(mods), 'ok': rc3 == 0}
+            if rc3 != 0:
+                broken.append({'theorem': '<leanchecker>', 'why': 'leanchecker rejected the compiled modules: ' + out3[-600:]})
+        except subprocess.TimeoutExpired:
+            ctx.leanchecker = {'modules': len(mods), 'ok': None, 'note': 'timed out (not a verdict)'}
     forb = grep_forbidden(list(modules) + ['Drivers.%s' % ctx.pid])
     for h in forb:
         broken.append({'theorem': '<source>', 'why': 'forbidden construct: ' + h})
@@ -424,6 +436,7 @@ def write_evidence(ctx, violations):
         'known_findings_reproduced': ctx.known_hits,
         'tie_broken': ctx.tie_broken,
         'lean_build_s': getattr(ctx, 'lean_build_s', None),
+        'leanchecker': getattr(ctx, 'leanchecker', None),
         'intensified_search': ctx.intensified,
     }
     cov.update(ctx.extra)
